@@ -2,7 +2,7 @@
 from . import sesscheck as SC
 
 MODULE = "Props.C05"
-PROFILE = {"publish": 25, "ack": 8, "inbound": 1, "connect": 12, "fault": 8, "restart": 2, "call": 2, "response": 1,
+PROFILE = {"wrap": 0.15, "publish": 25, "ack": 8, "inbound": 1, "connect": 12, "fault": 8, "restart": 2, "call": 2, "response": 1,
            "hostile": 0.3, "close": 0.2, "bigbuf": 0.05}
 
 
